@@ -84,12 +84,18 @@ class Real:
                 tree = files.Tree(dirs=())
                 tree.write(os.path.basename(tree.main), {'p': value}, via[5:])
                 enf = P.Enforcer(tree.conf())
+                if self.calls % 2:
+                    # the service registered a permissive default for the same name: a malformed override in the
+                    # operator's file still denies - it must never fall back to what the default would allow
+                    enf.register_default(P.RuleDefault('p', '@'))
                 enf.load_rules()
                 return enf, tree
             if via == 'yaml-text':      # value is raw YAML for the whole file
                 tree = files.Tree(dirs=())
                 tree.write_text(os.path.basename(tree.main), value)
                 enf = P.Enforcer(tree.conf())
+                if self.calls % 2:
+                    enf.register_default(P.RuleDefault('p', '@'))
                 enf.load_rules()
                 return enf, tree
         except Exception as e:
@@ -565,7 +571,7 @@ def run(ctx):
         if rnd.random() < 0.3:
             seq = corrupt(rnd, seq)
         text, k = seq_text(seq)
-        check_string(ctx, real, text, 'E', dict(s='E', text=text))
+        check_string(ctx, real, text, 'E', dict(s='E', text=text, via='dict' if i % 6 else ('file-json', 'file-yaml')[(i // 6) % 2]))
     ctx.stratum('E', exhaustive=False)
     # R: random strings
     for i in range(b['nR'] // ctx.nshards + 1):
